@@ -76,6 +76,8 @@ func ruleNUMWIDTH1(c *Ctx) {
 					why = "inside a factory that knows the type's width (`" + widthVar.Name() + " := t.Bits()`) the call passes `" + exprString(bits) + "` instead"
 				case bv != nil && isParamOf(f, decl, bv):
 					okW = true
+				case SelField(info, bits) != nil && fieldDerivesFromBits(p, SelField(info, bits)):
+					okW = true // the width kept in a struct field that is only ever set from t.Bits()
 				case isConst && tg.valArg >= 0:
 					val := ast.Unparen(call.Args[tg.valArg])
 					from32 := false
@@ -243,6 +245,12 @@ func derivesFromBits(p *Program, fn *FuncInfo, e ast.Expr, skip types.Object, de
 				return false
 			}
 		}
+		if sel, ok := nd.(*ast.SelectorExpr); ok && depth < 4 {
+			if fld := SelField(info, sel); fld != nil && !fld.Exported() && fieldDerivesFromBits(p, fld) {
+				found = true
+				return false
+			}
+		}
 		id, ok := nd.(*ast.Ident)
 		if !ok {
 			return true
@@ -290,4 +298,40 @@ func derivesFromBits(p *Program, fn *FuncInfo, e ast.Expr, skip types.Object, de
 		return true
 	})
 	return found
+}
+
+// fieldDerivesFromBits: every value stored into the field (assignment or keyed composite literal) leads back to
+// a reflect.Type.Bits() call.
+func fieldDerivesFromBits(p *Program, fld *types.Var) bool {
+	n, ok := 0, true
+	for _, f := range p.FuncsIn("json", "jsontext", "v1") {
+		if f.Body() == nil || f.Decl == nil {
+			continue
+		}
+		info := f.Info()
+		ast.Inspect(f.Body(), func(nd ast.Node) bool {
+			switch x := nd.(type) {
+			case *ast.AssignStmt:
+				if len(x.Lhs) == len(x.Rhs) {
+					for i, l := range x.Lhs {
+						if SelField(info, l) == fld {
+							n++
+							if !derivesFromBits(p, f, x.Rhs[i], nil, 0) {
+								ok = false
+							}
+						}
+					}
+				}
+			case *ast.KeyValueExpr:
+				if id, isId := x.Key.(*ast.Ident); isId && info.Uses[id] == fld {
+					n++
+					if !derivesFromBits(p, f, x.Value, nil, 0) {
+						ok = false
+					}
+				}
+			}
+			return true
+		})
+	}
+	return n > 0 && ok
 }
